@@ -15,12 +15,12 @@ Lemma run_kw_atomic (id : rule) (k : str) rest :
 Proof. rewrite run_rule_atomic, run_str. reflexivity. Qed.
 
 (* ---- substring / slice ------------------------------------------------------------ *)
-Lemma run_kw_range (id : rule) (k : str) r rest : range_ok r = true -> op_stops rest ->
+Lemma run_kw_range (id : rule) (k : str) r rest : op_stops rest ->
   exists kr, run (PRule id Normal (PSeq (PStr k) (PSeq (PStr [58]) r_range_spec))) false (k ++ 58 :: print_range r ++ rest)
              = Some (k ++ 58 :: print_range r, [Node (Some id) (k ++ 58 :: print_range r) [kr]], rest)
-             /\ parse_range_spec kr = Ok r.
+             /\ parse_range_spec kr = conv_range r.
 Proof.
-  intros Hok Hst. destruct (range_spec_roundtrip r rest Hok Hst) as (kr & Hrun & Hconv).
+  intros Hst. destruct (range_spec_reads r rest Hst) as (kr & Hrun & Hconv).
   exists kr. split; [|exact Hconv].
   rewrite run_rule_normal, run_seq, run_str, seq_res_some, run_seq.
   change (58 :: print_range r ++ rest) with ([58] ++ print_range r ++ rest).
@@ -75,13 +75,13 @@ Qed.
 
 Definition split_kids (s : str) (kr : ptree) : list ptree := [Node (Some R_split_arg) (esc s) []; kr].
 
-Lemma run_split_top s r rest : range_ok r = true -> op_stops rest ->
+Lemma run_split_top s r rest : op_stops rest ->
   exists kr, run r_split false (kw_split ++ 58 :: esc s ++ 58 :: print_range r ++ rest)
              = Some (kw_split ++ 58 :: esc s ++ 58 :: print_range r,
                      [Node (Some R_split) (kw_split ++ 58 :: esc s ++ 58 :: print_range r) (split_kids s kr)], rest)
-             /\ parse_range_spec kr = Ok r.
+             /\ parse_range_spec kr = conv_range r.
 Proof.
-  intros Hok Hst. destruct (range_spec_roundtrip r rest Hok Hst) as (kr & Hrun & Hconv).
+  intros Hst. destruct (range_spec_reads r rest Hst) as (kr & Hrun & Hconv).
   exists kr. split; [|exact Hconv].
   unfold r_split. rewrite run_rule_normal, run_seq. unfold kw_split. rewrite run_str, seq_res_some, run_seq.
   change (58 :: esc s ++ 58 :: print_range r ++ rest) with ([58] ++ esc s ++ 58 :: print_range r ++ rest).
@@ -91,13 +91,13 @@ Proof.
   cbn [app]. rewrite <- ?app_assoc. reflexivity.
 Qed.
 
-Lemma run_split_map s r rest : range_ok r = true -> op_stops rest ->
+Lemma run_split_map s r rest : op_stops rest ->
   exists kr, run r_map_split false (kw_split ++ 58 :: esc s ++ 58 :: print_range r ++ rest)
              = Some (kw_split ++ 58 :: esc s ++ 58 :: print_range r,
                      [Node (Some R_map_split) (kw_split ++ 58 :: esc s ++ 58 :: print_range r) (split_kids s kr)], rest)
-             /\ parse_range_spec kr = Ok r.
+             /\ parse_range_spec kr = conv_range r.
 Proof.
-  intros Hok Hst. destruct (range_spec_roundtrip r rest Hok Hst) as (kr & Hrun & Hconv).
+  intros Hst. destruct (range_spec_reads r rest Hst) as (kr & Hrun & Hconv).
   exists kr. split; [|exact Hconv].
   unfold r_map_split. rewrite run_rule_normal, run_seq. unfold kw_split. rewrite run_str, seq_res_some, run_seq.
   change (58 :: esc s ++ 58 :: print_range r ++ rest) with ([58] ++ esc s ++ 58 :: print_range r ++ rest).
@@ -202,16 +202,22 @@ Ltac use_run H :=
 Ltac enter_top := unfold r_operation; rewrite run_rule_normal; cbn [run]; norm_input; kill_alts.
 Ltac enter_map := unfold r_map_inner_operation; rewrite run_rule_normal; cbn [run]; norm_input; kill_alts.
 
-Theorem operation_reads_simple o rest : simple_ok o = true -> op_stops rest ->
+(* the operations the canonical printer writes, whatever their numbers *)
+Definition shape_ok (o : op) : bool :=
+  match o with Replace _ _ _ | Filter _ | FilterNot _ | RegexExtract _ _ | Map _ => false | _ => true end.
+(* what the converter answers: the operation, or a parse error when a number is out of range *)
+Definition conv_simple (o : op) : outcome op := if simple_ok o then Ok o else Err.
+
+Theorem operation_reads_shape o rest : shape_ok o = true -> op_stops rest ->
   exists k, run r_operation false (print_simple o ++ rest)
             = Some (print_simple o, [Node (Some R_operation) (print_simple o) [k]], rest)
-            /\ parse_operation k = Ok o.
+            /\ parse_operation k = conv_simple o.
 Proof.
   intros Hok Hst. pose proof (op_stops_stops rest Hst) as Hss.
-  destruct o as [sep r|sep|? ? ?| | |chars d|r|s|s|s| |?|?|r|?|d| | |w c d|? ?]; try discriminate Hok; cbn [simple_ok] in Hok.
-  - destruct (run_split_top sep r rest Hok Hst) as (kr & H & Hc). eexists; split; [enter_top; use_run H; reflexivity|].
+  destruct o as [sep r|sep|? ? ?| | |chars d|r|s|s|s| |?|?|r|?|d| | |w c d|? ?]; try discriminate Hok; unfold conv_simple; cbn [simple_ok].
+  - destruct (run_split_top sep r rest Hst) as (kr & H & Hc). eexists; split; [enter_top; use_run H; reflexivity|].
     unfold parse_operation; cbn [t_rule]. unfold parse_split_like, split_kids. cbn [t_kids unwrap_first bind t_text nth_error].
-    rewrite process_arg_esc, Hc. reflexivity.
+    rewrite process_arg_esc, Hc. unfold conv_range. destruct (range_ok r); reflexivity.
   - pose proof (run_kw_simple R_join kw_join sep rest Hss) as H. eexists; split; [enter_top; use_run H; reflexivity|].
     unfold parse_operation; cbn [t_rule]. unfold extract_single_arg. cbn [t_kids unwrap_first bind t_text omap]. rewrite process_arg_esc. reflexivity.
   - pose proof (run_kw_atomic R_upper kw_upper rest) as H. eexists; split; [enter_top; use_run H; reflexivity | reflexivity].
@@ -220,8 +226,8 @@ Proof.
     + pose proof (run_trim_dir d rest Hst) as H. eexists; split; [enter_top; use_run H; reflexivity|]. destruct d; reflexivity.
     + pose proof (run_trim_chars (c0 :: cs) d rest Hst) as H. eexists; split; [enter_top; use_run H; reflexivity|].
       unfold parse_operation; cbn [t_rule]. unfold parse_trim_chars, parse_trim_direction. cbn [t_kids t_text]. rewrite process_arg_esc. destruct d; reflexivity.
-  - destruct (run_kw_range R_substring kw_substring r rest Hok Hst) as (kr & H & Hc). eexists; split; [enter_top; use_run H; reflexivity|].
-    unfold parse_operation; cbn [t_rule]. unfold extract_range_arg. cbn [t_kids unwrap_first bind]. rewrite Hc. reflexivity.
+  - destruct (run_kw_range R_substring kw_substring r rest Hst) as (kr & H & Hc). eexists; split; [enter_top; use_run H; reflexivity|].
+    unfold parse_operation; cbn [t_rule]. unfold extract_range_arg. cbn [t_kids unwrap_first bind]. rewrite Hc. unfold conv_range. destruct (range_ok r); reflexivity.
   - pose proof (run_kw_simple R_append kw_append s rest Hss) as H. eexists; split; [enter_top; use_run H; reflexivity|].
     unfold parse_operation; cbn [t_rule]. unfold extract_single_arg. cbn [t_kids unwrap_first bind t_text omap]. rewrite process_arg_esc. reflexivity.
   - pose proof (run_kw_simple R_prepend kw_prepend s rest Hss) as H. eexists; split; [enter_top; use_run H; reflexivity|].
@@ -229,8 +235,8 @@ Proof.
   - pose proof (run_kw_simple R_surround kw_surround s rest Hss) as H. eexists; split; [enter_top; use_run H; reflexivity|].
     unfold parse_operation; cbn [t_rule]. unfold extract_single_arg. cbn [t_kids unwrap_first bind t_text omap]. rewrite process_arg_esc. reflexivity.
   - pose proof (run_kw_atomic R_strip_ansi kw_strip_ansi rest) as H. eexists; split; [enter_top; use_run H; reflexivity | reflexivity].
-  - destruct (run_kw_range R_slice kw_slice r rest Hok Hst) as (kr & H & Hc). eexists; split; [enter_top; use_run H; reflexivity|].
-    unfold parse_operation; cbn [t_rule]. unfold extract_range_arg. cbn [t_kids unwrap_first bind]. rewrite Hc. reflexivity.
+  - destruct (run_kw_range R_slice kw_slice r rest Hst) as (kr & H & Hc). eexists; split; [enter_top; use_run H; reflexivity|].
+    unfold parse_operation; cbn [t_rule]. unfold extract_range_arg. cbn [t_kids unwrap_first bind]. rewrite Hc. unfold conv_range. destruct (range_ok r); reflexivity.
   - destruct d.
     + pose proof (run_sort_asc R_sort rest Hst) as H. eexists; split; [enter_top; use_run H; reflexivity | reflexivity].
     + pose proof (run_sort_desc R_sort rest) as H. eexists; split; [enter_top; use_run H; reflexivity | reflexivity].
@@ -238,19 +244,19 @@ Proof.
   - pose proof (run_kw_atomic R_unique kw_unique rest) as H. eexists; split; [enter_top; use_run H; reflexivity | reflexivity].
   - pose proof (run_pad_gen w c d rest) as H. eexists; split; [enter_top; use_run H; reflexivity|].
     unfold parse_operation; cbn [t_rule]. unfold parse_pad_operation. cbn [t_kids unwrap_first bind t_text nth_error].
-    rewrite (parse_usize_print w) by (apply N.leb_le; exact Hok). rewrite process_arg_esc. destruct d; reflexivity.
+    rewrite (parse_usize_print_gen w). destruct (N.leb w usize_max); [|reflexivity]. rewrite process_arg_esc. destruct d; reflexivity.
 Qed.
 
-Theorem inner_reads_simple o rest : simple_ok o = true -> op_stops rest ->
+Theorem inner_reads_shape o rest : shape_ok o = true -> op_stops rest ->
   exists k, run r_map_inner_operation false (print_simple o ++ rest)
             = Some (print_simple o, [Node (Some R_map_inner_operation) (print_simple o) [k]], rest)
-            /\ parse_map_inner_operation k = Ok o.
+            /\ parse_map_inner_operation k = conv_simple o.
 Proof.
   intros Hok Hst. pose proof (op_stops_stops rest Hst) as Hss.
-  destruct o as [sep r|sep|? ? ?| | |chars d|r|s|s|s| |?|?|r|?|d| | |w c d|? ?]; try discriminate Hok; cbn [simple_ok] in Hok.
-  - destruct (run_split_map sep r rest Hok Hst) as (kr & H & Hc). eexists; split; [enter_map; use_run H; reflexivity|].
+  destruct o as [sep r|sep|? ? ?| | |chars d|r|s|s|s| |?|?|r|?|d| | |w c d|? ?]; try discriminate Hok; unfold conv_simple; cbn [simple_ok].
+  - destruct (run_split_map sep r rest Hst) as (kr & H & Hc). eexists; split; [enter_map; use_run H; reflexivity|].
     unfold parse_map_inner_operation; cbn [t_rule]. unfold parse_split_like, split_kids. cbn [t_kids unwrap_first bind t_text nth_error].
-    rewrite process_arg_esc, Hc. reflexivity.
+    rewrite process_arg_esc, Hc. unfold conv_range. destruct (range_ok r); reflexivity.
   - pose proof (run_kw_simple R_map_join kw_join sep rest Hss) as H. eexists; split; [enter_map; use_run H; reflexivity|].
     unfold parse_map_inner_operation; cbn [t_rule]. unfold extract_single_arg. cbn [t_kids unwrap_first bind t_text omap]. rewrite process_arg_esc. reflexivity.
   - pose proof (run_kw_atomic R_upper kw_upper rest) as H. eexists; split; [enter_map; use_run H; reflexivity | reflexivity].
@@ -259,8 +265,8 @@ Proof.
     + pose proof (run_trim_dir d rest Hst) as H. eexists; split; [enter_map; use_run H; reflexivity|]. destruct d; reflexivity.
     + pose proof (run_trim_chars (c0 :: cs) d rest Hst) as H. eexists; split; [enter_map; use_run H; reflexivity|].
       unfold parse_map_inner_operation; cbn [t_rule]. unfold parse_trim_chars, parse_trim_direction. cbn [t_kids t_text]. rewrite process_arg_esc. destruct d; reflexivity.
-  - destruct (run_kw_range R_substring kw_substring r rest Hok Hst) as (kr & H & Hc). eexists; split; [enter_map; use_run H; reflexivity|].
-    unfold parse_map_inner_operation; cbn [t_rule]. unfold extract_range_arg. cbn [t_kids unwrap_first bind]. rewrite Hc. reflexivity.
+  - destruct (run_kw_range R_substring kw_substring r rest Hst) as (kr & H & Hc). eexists; split; [enter_map; use_run H; reflexivity|].
+    unfold parse_map_inner_operation; cbn [t_rule]. unfold extract_range_arg. cbn [t_kids unwrap_first bind]. rewrite Hc. unfold conv_range. destruct (range_ok r); reflexivity.
   - pose proof (run_kw_simple R_append kw_append s rest Hss) as H. eexists; split; [enter_map; use_run H; reflexivity|].
     unfold parse_map_inner_operation; cbn [t_rule]. unfold extract_single_arg. cbn [t_kids unwrap_first bind t_text omap]. rewrite process_arg_esc. reflexivity.
   - pose proof (run_kw_simple R_prepend kw_prepend s rest Hss) as H. eexists; split; [enter_map; use_run H; reflexivity|].
@@ -268,8 +274,8 @@ Proof.
   - pose proof (run_kw_simple R_surround kw_surround s rest Hss) as H. eexists; split; [enter_map; use_run H; reflexivity|].
     unfold parse_map_inner_operation; cbn [t_rule]. unfold extract_single_arg. cbn [t_kids unwrap_first bind t_text omap]. rewrite process_arg_esc. reflexivity.
   - pose proof (run_kw_atomic R_strip_ansi kw_strip_ansi rest) as H. eexists; split; [enter_map; use_run H; reflexivity | reflexivity].
-  - destruct (run_kw_range R_map_slice kw_slice r rest Hok Hst) as (kr & H & Hc). eexists; split; [enter_map; use_run H; reflexivity|].
-    unfold parse_map_inner_operation; cbn [t_rule]. unfold extract_range_arg. cbn [t_kids unwrap_first bind]. rewrite Hc. reflexivity.
+  - destruct (run_kw_range R_map_slice kw_slice r rest Hst) as (kr & H & Hc). eexists; split; [enter_map; use_run H; reflexivity|].
+    unfold parse_map_inner_operation; cbn [t_rule]. unfold extract_range_arg. cbn [t_kids unwrap_first bind]. rewrite Hc. unfold conv_range. destruct (range_ok r); reflexivity.
   - destruct d.
     + pose proof (run_sort_asc R_map_sort rest Hst) as H. eexists; split; [enter_map; use_run H; reflexivity | reflexivity].
     + pose proof (run_sort_desc R_map_sort rest) as H. eexists; split; [enter_map; use_run H; reflexivity | reflexivity].
@@ -277,7 +283,28 @@ Proof.
   - pose proof (run_kw_atomic R_map_unique kw_unique rest) as H. eexists; split; [enter_map; use_run H; reflexivity | reflexivity].
   - pose proof (run_pad_gen w c d rest) as H. eexists; split; [enter_map; use_run H; reflexivity|].
     unfold parse_map_inner_operation; cbn [t_rule]. unfold parse_pad_operation. cbn [t_kids unwrap_first bind t_text nth_error].
-    rewrite (parse_usize_print w) by (apply N.leb_le; exact Hok). rewrite process_arg_esc. destruct d; reflexivity.
+    rewrite (parse_usize_print_gen w). destruct (N.leb w usize_max); [|reflexivity]. rewrite process_arg_esc. destruct d; reflexivity.
+Qed.
+
+Lemma simple_ok_shape o : simple_ok o = true -> shape_ok o = true.
+Proof. destruct o; intros H; try discriminate H; reflexivity. Qed.
+
+Theorem operation_reads_simple o rest : simple_ok o = true -> op_stops rest ->
+  exists k, run r_operation false (print_simple o ++ rest)
+            = Some (print_simple o, [Node (Some R_operation) (print_simple o) [k]], rest)
+            /\ parse_operation k = Ok o.
+Proof.
+  intros Hok Hst. destruct (operation_reads_shape o rest (simple_ok_shape o Hok) Hst) as (k & H & Hc).
+  exists k. split; [exact H|]. rewrite Hc. unfold conv_simple. rewrite Hok. reflexivity.
+Qed.
+
+Theorem inner_reads_simple o rest : simple_ok o = true -> op_stops rest ->
+  exists k, run r_map_inner_operation false (print_simple o ++ rest)
+            = Some (print_simple o, [Node (Some R_map_inner_operation) (print_simple o) [k]], rest)
+            /\ parse_map_inner_operation k = Ok o.
+Proof.
+  intros Hok Hst. destruct (inner_reads_shape o rest (simple_ok_shape o Hok) Hst) as (k & H & Hc).
+  exists k. split; [exact H|]. rewrite Hc. unfold conv_simple. rewrite Hok. reflexivity.
 Qed.
 
 (* ---- the other documented spellings ------------------------------------------------------ *)
